@@ -78,22 +78,22 @@ class Apply(Type):
 class Subscription(collections.namedtuple('Subscription', 'node, port')):
     """Descriptor representing subscription node input port of given type."""
 
-    # registry of ports subscribed on given node
-    _PORTS: dict['flow.Node', set[Type]] = collections.defaultdict(set)  # TO-DO: switch to weakref
+    # registry of ports subscribed on given node (each with the identity of the subscription holding it)
+    _PORTS: dict['flow.Node', dict[Type, int]] = collections.defaultdict(dict)  # TO-DO: switch to weakref
 
     def __new__(cls, subscriber: 'flow.Node', port: Type):
-        if port in cls._PORTS[subscriber]:
+        ports = cls._PORTS[subscriber]
+        if port in ports:
             raise _exception.TopologyError('Double subscription')
-        if cls._PORTS[subscriber] and (
-            isinstance(port, Apply) ^ any(isinstance(s, Apply) for s in cls._PORTS[subscriber])
-        ):
+        if ports and (isinstance(port, Apply) ^ any(isinstance(s, Apply) for s in ports)):
             raise _exception.TopologyError('Apply/Train collision')
         if isinstance(port, (Train, Label)) and any(subscriber.output):
             raise _exception.TopologyError('Publishing node trained')
         if isinstance(subscriber, atomic.Future):
             raise _exception.TopologyError('Future node subscribing')
-        cls._PORTS[subscriber].add(port)
-        return super().__new__(cls, subscriber, port)
+        instance = super().__new__(cls, subscriber, port)
+        ports[port] = id(instance)
+        return instance
 
     def __repr__(self):
         return f'{self.node}@{self.port}'
@@ -117,7 +117,11 @@ class Subscription(collections.namedtuple('Subscription', 'node, port')):
         return frozenset(cls._PORTS[subscriber])
 
     def __del__(self):
-        self._PORTS.get(self.node, {}).discard(self.port)
+        # only the subscription that holds the port may free it - a refused one (possibly kept alive by the traceback
+        # of its exception) must not take away the port from whoever subscribed it successfully afterwards
+        ports = self._PORTS.get(self.node)
+        if ports and ports.get(self.port) == id(self):
+            del ports[self.port]
 
 
 class Applicable:
@@ -155,7 +159,7 @@ class Publishable(Applicable):
             self.republish(subscription)
         except Exception as err:
             # TO-DO: use weakref
-            Subscription._PORTS[subscriber].discard(port)  # pylint: disable=protected-access
+            Subscription._PORTS[subscriber].pop(port, None)  # pylint: disable=protected-access
             raise err
 
     def republish(self, subscription: 'flow.Subscription') -> None:
